@@ -386,6 +386,9 @@ func nodedbCrash(args []string) int {
 						mu.Lock()
 						classes["skipped:uninterrupted-run-deviates:"+be]++
 						mu.Unlock()
+						if os.Getenv("VERIF_DEBUG") != "" {
+							fmt.Fprintf(os.Stderr, "dry run deviates on %s: %s: %s\n", be, f.Kind, f.Msg)
+						}
 						continue
 					}
 					var scen []crashSpec
